@@ -111,8 +111,8 @@ class RoundTrip(Obligation):
             pub=bytes(FIXTURE_ED25519_PUB); kid=ed25519_keyid(pub)
             key=b.struct('PublicKey',typ=b.variant('KeyType','Ed25519'),key_id=b.keyid(kid),scheme=b.variant('SignatureScheme','Ed25519'),keyid_hash_algorithms=some(VecO([mk_string('sha256'),mk_string('sha512')])),value=Agg('PublicKeyValue',[u8vec(list(pub))]))
             steps=[b.step('s0',Int(32,False,z3.BitVec('thr',32)),[b.keyid(kid)],[b.rule('Create','a')],[],['make'])][:run.pick(2,'ns')]
-            secs=[4102444800,1700000000][run.pick(2,'exp')]
-            return b.struct('LayoutMetadata',steps=VecO(steps),inspect=VecO([b.inspection('i0',['true'])][:run.pick(2,'ni')]),keys=b.hashmap([(b.keyid(kid),key)][:run.pick(2,'nkeys')]),expires=b.datetime(secs),readme=self.S(run,'readme','r'))
+            secs,nanos=[(4102444800,0),(1700000000,0),(1483228799,1000000000)][run.pick(3,'exp')]      # the last one is the leap second 2016-12-31T23:59:60Z
+            return b.struct('LayoutMetadata',steps=VecO(steps),inspect=VecO([b.inspection('i0',['true'])][:run.pick(2,'ni')]),keys=b.hashmap([(b.keyid(kid),key)][:run.pick(2,'nkeys')]),expires=b.datetime(secs,nanos),readme=self.S(run,'readme','r'))
         if w in ('metablock','wrapper'):
             meta=b.wrap_link(b.link('s0',[(b.vpath('a'),b.target_description([1]))],[],byproducts=b.byproducts(Int(32,True,0),'o','e'),command=['x'])) if run.pick(2,'which')==0 else \
                  b.wrap_layout(b.layout([b.step('s0',1,[],[],[],[])],[],[],b.datetime(4102444800),'r'))
